@@ -284,7 +284,6 @@ where
         let currents: Vec<Arc<Mutex<Option<T>>>> = (0..shards).map(|_| Arc::new(Mutex::new(None))).collect();
         let results: Arc<Mutex<Vec<Option<(Stats, Option<(String, T)>)>>>> =
             Arc::new(Mutex::new((0..shards).map(|_| None).collect()));
-        let mut hang: Option<(usize, T)> = None;
 
         std::thread::scope(|scope| {
             for shard in 0..shards {
@@ -371,28 +370,24 @@ where
                     if b > 0 && now.saturating_sub(b) > ctx.hang_secs * 1000 {
                         let c = currents[s].lock().unwrap().clone();
                         if let Some(c) = c {
-                            hang = Some((s, c));
+                            // We cannot stop the stuck thread; the handler confirms the hang in a fresh
+                            // process and, if confirmed, reports and leaves the process.  It returns only
+                            // when the case finishes there (a slow machine, not a hang).
+                            let case = serde_json::to_value(&c).unwrap_or(Value::Null);
+                            let f = Failure {
+                                sub: self.name.to_string(),
+                                msg: format!("HANG: one case made no progress for {} s", ctx.hang_secs),
+                                case,
+                                hang: true,
+                            };
+                            HANG_SLOT.lock().unwrap().replace(f);
+                            (HANG_HANDLER.lock().unwrap().as_ref().expect("hang handler"))();
+                            beats[s].store(t0.elapsed().as_millis() as u64 + 1, Ordering::Relaxed);
                         }
                     }
                 }
-                if hang.is_some() {
-                    break;
-                }
-            }
-            if let Some((_, c)) = &hang {
-                // We cannot stop the stuck thread; report from here and leave the process.
-                let case = serde_json::to_value(c).unwrap_or(Value::Null);
-                let f = Failure {
-                    sub: self.name.to_string(),
-                    msg: format!("HANG: one case made no progress for {} s", ctx.hang_secs),
-                    case,
-                    hang: true,
-                };
-                HANG_SLOT.lock().unwrap().replace(f);
-                (HANG_HANDLER.lock().unwrap().as_ref().expect("hang handler"))();
             }
         });
-
         let mut stats = Stats::default();
         let mut failure = None;
         let mut res = results.lock().unwrap();
@@ -553,6 +548,9 @@ where
                         };
                         HANG_SLOT.lock().unwrap().replace(f);
                         (HANG_HANDLER.lock().unwrap().as_ref().expect("hang handler"))();
+                        // the handler returned: the item finishes in a fresh process, so this is a slow
+                        // machine; allow another period (compare-exchange: the worker may have moved on)
+                        let _ = beats[t].0.compare_exchange(b, t0.elapsed().as_millis() as u64 + 1, Ordering::Relaxed, Ordering::Relaxed);
                     }
                 }
             }
@@ -774,6 +772,17 @@ pub fn run_property(ctx: &Ctx, prop: &Property, only_sub: Option<&str>) -> i32 {
         *HANG_HANDLER.lock().unwrap() = Some(Box::new(move || {
             let f = HANG_SLOT.lock().unwrap().clone().expect("hang slot");
             let path = write_replay(&ctx2, id, &f);
+            // Confirmation: the same case alone in a fresh process.  Only a case that does not finish
+            // there either (within a limit several times the watchdog period) is a hang; on a heavily
+            // loaded machine the in-process watchdog can fire for a case that is merely slow.
+            if let Some(secs) = confirm_hang_in_child(id, ctx2.tier.name(), &path, ctx2.hang_secs.max(60) * 3) {
+                println!(
+                    "note: watchdog fired in sub-check {} but the case finished in {:.1} s in a fresh process (slow machine); continuing",
+                    f.sub, secs
+                );
+                let _ = std::fs::remove_file(&path);
+                return;
+            }
             let ev = json!({
                 "property_id": id, "tier": ctx2.tier.name(), "seed": ctx2.seed, "level": level,
                 "coverage": {"evaluations": 1, "distinct_nontrivial": 0, "rule": "run ended by hang watchdog", "samples": [f.case], "explanation": "run ended by hang watchdog"},
@@ -836,6 +845,34 @@ pub fn run_property(ctx: &Ctx, prop: &Property, only_sub: Option<&str>) -> i32 {
 }
 
 /// Replay one file; exit code contract as for checks.
+/// Runs `check <id> --replay <path>` in a child process.  Some(seconds) if the child exited with status 0
+/// (the case terminates and passes) within `limit_s`; None if it is still running then (it is killed), or
+/// exits otherwise (the replay itself reports a failure), or cannot be started.
+fn confirm_hang_in_child(id: &str, tier: &str, path: &std::path::Path, limit_s: u64) -> Option<f64> {
+    let exe = std::env::current_exe().ok()?;
+    let t0 = Instant::now();
+    let mut child = std::process::Command::new(exe)
+        .args([id, "--tier", tier, "--replay"])
+        .arg(path)
+        .stdout(std::process::Stdio::null())
+        .stderr(std::process::Stdio::null())
+        .spawn()
+        .ok()?;
+    loop {
+        match child.try_wait() {
+            Ok(Some(st)) => return if st.success() { Some(t0.elapsed().as_secs_f64()) } else { None },
+            Ok(None) => {}
+            Err(_) => return None,
+        }
+        if t0.elapsed().as_secs() > limit_s {
+            let _ = child.kill();
+            let _ = child.wait();
+            return None;
+        }
+        std::thread::sleep(Duration::from_millis(100));
+    }
+}
+
 pub fn run_replay(prop: &Property, path: &std::path::Path) -> i32 {
     match replay_file(prop, path) {
         Ok(Ok(())) => {
